@@ -26,6 +26,8 @@ func checkC08(p *Prog, r *Report) {
 	ruleWinSize(p, r)
 	ruleReadAtEOF(p, r)
 	r.Floor("RDATEOF", 1)
+	ruleReadAhead(p, r)
+	r.Floor("READAHEAD", 3)
 	r.Floor("WINSIZE", 4)
 	nRead, nSafe := 0, 0
 	for _, f := range fs {
